@@ -716,29 +716,67 @@ func r33ColumnOrder(c *core.Ctx) {
 	// reader: every non-geometry column value appended in result order, geometry kept apart
 	if f := c.Anchor(R, "gpkg.SourceGeopackage.ReadFeatures"); f != nil {
 		info := f.Pkg.TypesInfo
-		var sw *ast.SwitchStmt
+		// the column loop decides per column name: geometry column (kept apart) or attribute (appended); written as
+		// `switch colName { case t.gcolumn: … default: … }` or as `if colName == t.gcolumn { … } else { … }`
 		var colLoop *ast.RangeStmt
+		var geomArm, defArm []ast.Stmt
+		arms := false
+		isGcol := func(e ast.Expr) bool {
+			fv := core.FieldOf(info, e)
+			return fv != nil && fv.Name() == "gcolumn"
+		}
 		ast.Inspect(f.Decl.Body, func(n ast.Node) bool {
-			if r, ok := n.(*ast.RangeStmt); ok {
-				for _, s := range r.Body.List {
-					if s2, isSw := s.(*ast.SwitchStmt); isSw && s2.Tag != nil && core.ObjOf(info, s2.Tag) == core.ObjOf(info, r.Value) && r.Value != nil {
-						sw = s2
-						colLoop = r
+			r, ok := n.(*ast.RangeStmt)
+			if !ok || r.Value == nil {
+				return true
+			}
+			col := core.ObjOf(info, r.Value)
+			for _, s := range r.Body.List {
+				switch x := s.(type) {
+				case *ast.SwitchStmt:
+					if x.Tag == nil || core.ObjOf(info, x.Tag) != col {
+						continue
 					}
+					for _, cc := range x.Body.List {
+						cl := cc.(*ast.CaseClause)
+						if cl.List == nil {
+							defArm = cl.Body
+						} else if len(cl.List) == 1 && isGcol(cl.List[0]) {
+							geomArm = cl.Body
+						}
+					}
+					colLoop, arms = r, len(x.Body.List) == 2
+				case *ast.IfStmt:
+					be, ok := ast.Unparen(x.Cond).(*ast.BinaryExpr)
+					if !ok || (be.Op != token.EQL && be.Op != token.NEQ) || x.Init != nil {
+						continue
+					}
+					if !((core.ObjOf(info, be.X) == col && isGcol(be.Y)) || (core.ObjOf(info, be.Y) == col && isGcol(be.X))) {
+						continue
+					}
+					eb, ok := x.Else.(*ast.BlockStmt)
+					if !ok {
+						continue
+					}
+					if be.Op == token.EQL {
+						geomArm, defArm = x.Body.List, eb.List
+					} else {
+						geomArm, defArm = eb.List, x.Body.List
+					}
+					colLoop, arms = r, true
 				}
 			}
 			return true
 		})
-		ok := sw != nil
-		why := "no `switch colName` over the result columns found"
+		ok := colLoop != nil && arms && geomArm != nil && defArm != nil
+		why := "no decision `column name == <table>.gcolumn` (switch or if/else) over the result columns found"
 		if ok {
 			geomCase, defCase := false, false
-			for _, cc := range sw.Body.List {
-				cl := cc.(*ast.CaseClause)
-				if cl.List == nil {
+			{
+				{
 					// default: a type switch whose every non-default case appends exactly one value to the column
 					// slice -- written out here, or in a module helper called as `c = helper(c, …)`
-					for _, s := range cl.Body {
+					for _, s := range defArm {
 						if ts, isTS := s.(*ast.TypeSwitchStmt); isTS {
 							defCase = true
 							if w := typeSwitchAppendsOne(c.P, info, ts, nil); w != "" {
@@ -796,11 +834,12 @@ func r33ColumnOrder(c *core.Ctx) {
 							}
 						}
 					}
-				} else if len(cl.List) == 1 {
-					if fv := core.FieldOf(info, cl.List[0]); fv != nil && fv.Name() == "gcolumn" {
-						geomCase = len(core.BuiltinCallsIn(info, cl, "append")) == 0
-					}
 				}
+				napp := 0
+				for _, gs := range geomArm {
+					napp += len(core.BuiltinCallsIn(info, gs, "append"))
+				}
+				geomCase = napp == 0
 			}
 			ok = geomCase && defCase
 			if !geomCase {
